@@ -518,7 +518,7 @@ def m_res_ok(interp, path, args, ret_ty, callee):
     return EnumV(ret_ty, z3.If(e.discr == 0, 1, 0), {0: [], 1: e.variants.get(0, [UndefV()])})
 
 
-@model(r"^Option::<.*>::ok_or$", "Some(v) -> Ok(v); None -> Err(e)")
+@model(r"^Option::<.*>::ok_or(::<.*>)?$", "Some(v) -> Ok(v); None -> Err(e)")
 def m_opt_ok_or(interp, path, args, ret_ty, callee):
     e = args[0]
     return EnumV(ret_ty, z3.If(e.discr == 1, 0, 1), {0: e.variants.get(1, [UndefV()]), 1: [args[1]]})
@@ -583,6 +583,106 @@ def m_res_map(interp, path, args, ret_ty, callee):
     return fork_enum(interp, path, e, {0: on(0), 1: on(1)})
 
 
+# ---------------------------------------------------------------- IndexMap as an insertion-ordered entry list
+# An IndexMap value is a StructV whose type starts with "IndexMap<" and whose fields are (key, value) tuples, in
+# insertion order (a CONCRETE number of entries chosen by the job; keys are distinct opaque values). Only the
+# consuming-iterator pipeline `into_iter().map(f).collect::<Result<IndexMap, E>>()` is modelled: f is applied to the
+# entries in order, the first Err is returned, otherwise the map of the results in the same order.
+def _is_indexmap(v):
+    return v.kind == "struct" and norm_ty(v.ty).startswith("IndexMap<")
+
+
+@model(r"^<IndexMap<.*> as IntoIterator>::into_iter$", "consuming iterator over the entries in insertion order")
+def m_indexmap_into_iter(interp, path, args, ret_ty, callee):
+    m = args[0]
+    if not _is_indexmap(m):
+        raise Refuse("into_iter of %r" % (m,))
+    return StructV("IndexMapIntoIter", list(m.fields))
+
+
+@model(r"^<(map::)?IntoIter<.*> as Iterator>::map::<.*>$", "lazy map adaptor (iterator, closure)")
+def m_iter_map(interp, path, args, ret_ty, callee):
+    if args[0].kind != "struct" or args[0].ty != "IndexMapIntoIter":
+        raise Refuse("Iterator::map over %r" % (args[0],))
+    return StructV("IterMap", [args[0], args[1]])
+
+
+@model(r"^<Map<.*> as Iterator>::collect::<Result<IndexMap<.*>$",
+       "apply the closure to each entry in order; first Err wins, else Ok(IndexMap of the results)")
+def m_iter_collect_result_map(interp, path, args, ret_ty, callee):
+    it = args[0]
+    if it.kind != "struct" or it.ty != "IterMap":
+        raise Refuse("collect over %r" % (it,))
+    entries, clo = it.fields[0].fields, it.fields[1]
+    from .interp import _ConstRef
+    outs = []
+    work = [(path, 0, [])]
+    while work:
+        p, i, acc = work.pop()
+        if i == len(entries):
+            ok_ty = inner_ty(ret_ty) if ret_ty else "IndexMap<?>"
+            outs.append(Outcome(p, "ret", EnumV(ret_ty, 0, {0: [StructV(ok_ty, acc)]})))
+            continue
+        f = interp.pick_closure(clo.ty, [entries[i]], None)
+        for o in interp.call_function(f, [_ConstRef("&mut " + clo.ty, clo), entries[i]], p):
+            if o.kind != "ret":
+                outs.append(o)
+                continue
+            r = o.value
+            if r.kind != "enum":
+                raise Refuse("closure result %r" % (r,))
+
+            def on_ok(pp, r=r, acc=acc, i=i):
+                work.append((pp, i + 1, acc + [r.variants[0][0]]))
+                return []
+
+            def on_err(pp, r=r):
+                return [Outcome(pp, "ret", EnumV(ret_ty, 1, {1: r.variants[1]}))]
+            outs += fork_enum(interp, o.path, r, {0: on_ok, 1: on_err})
+    return outs
+
+
+# ---------------------------------------------------------------- std blanket conversions
+@model(r"^<([A-Z]\w*) as TryFrom<(\w+)>>::try_from$",
+       "std blanket `impl<T, U: Into<T>> TryFrom<U> for T` (used only when /repo defines no TryFrom<U> for T): "
+       "Ok(<T as From<U>>::from(u)), the From impl being executed from MIR")
+def m_blanket_try_from(interp, path, args, ret_ty, callee):
+    m = re.match(r"^<([A-Z]\w*) as TryFrom<(\w+)>>::try_from$", canon(callee))
+    t, u = m.group(1), m.group(2)
+    kind, target = interp.resolve("<%s as From<%s>>::from" % (t, u), args, t)
+    if kind != "mir":
+        raise Refuse("blanket TryFrom: no MIR body for <%s as From<%s>>::from" % (t, u))
+    outs = []
+    for o in interp.call_function(target, list(args), path):
+        outs.append(Outcome(o.path, "ret", EnumV(ret_ty, 0, {0: [o.value]})) if o.kind == "ret" else o)
+    return outs
+
+
+@model(r"^<(.+) as TryInto<(.+)>>::try_into$",
+       "std blanket `impl<T, U: TryFrom<T>> TryInto<U> for T`: forwards to <U as TryFrom<T>>::try_from")
+def m_blanket_try_into(interp, path, args, ret_ty, callee):
+    m = re.match(r"^<(.+) as TryInto<(.+)>>::try_into$", canon(callee))
+    return interp.call_named(path, "<%s as TryFrom<%s>>::try_from" % (m.group(2), m.group(1)), args, ret_ty)
+
+
+@model(r"^<((?![iu](?:8|16|32|64|128|size)\b|[TU]\b)[A-Za-z_]\w*) as Into<([A-Z]\w*)>>::into$",
+       "std blanket `impl<T, U: From<T>> Into<U> for T`: forwards to <U as From<T>>::from")
+def m_blanket_into(interp, path, args, ret_ty, callee):
+    m = re.match(r"^<((?![iu](?:8|16|32|64|128|size)\b|[TU]\b)[A-Za-z_]\w*) as Into<([A-Z]\w*)>>::into$", canon(callee))
+    return interp.call_named(path, "<%s as From<%s>>::from" % (m.group(2), m.group(1)), args, ret_ty)
+
+
+@model(r"<impl u(16|32|64|128)>::to_(be|le)_bytes$", "byte decomposition of an unsigned primitive")
+def m_to_bytes(interp, path, args, ret_ty, callee):
+    m = re.search(r"<impl u(\d+)>::to_(be|le)_bytes$", canon(callee))
+    n = int(m.group(1)) // 8
+    x = args[0].term
+    bs = [IntV((x / (256 ** i)) % 256, "u8") for i in range(n)]      # little-endian order
+    if m.group(2) == "be":
+        bs.reverse()
+    return StructV("[u8; %d]" % n, bs)
+
+
 # ---------------------------------------------------------------- conversions between primitive ints
 @model(r"^<([iu](8|16|32|64|128|size)|T|U) as (Into|From)<([iu](8|16|32|64|128|size)|bool|T|U)>>::(into|from)$",
        "lossless primitive conversion (value preserved; refused if the target cannot hold the source type)")
@@ -599,10 +699,19 @@ def m_prim_from(interp, path, args, ret_ty, callee):
     return IntV(v.term, ret_ty)
 
 
-@model(r"^<[iu](8|16|32|64|128|size) as TryFrom<[iu](8|16|32|64|128|size)>>::try_from$",
-       "Ok(v) iff the value fits the target type")
+@model(r"^<[iu](8|16|32|64|128|size) as TryFrom<([iu](8|16|32|64|128|size)|BInt<\d+>|BUint<\d+>)>>::try_from$",
+       "Ok(v) iff the value fits the target type (primitive or bnum source)")
 def m_prim_try_from(interp, path, args, ret_ty, callee):
     to = re.match(r"^<(\w+) as", norm_ty(callee)).group(1)
+    x = args[0].term
+    ok = in_range(x, to)
+    return EnumV(ret_ty, z3.If(ok, 0, 1), {0: [IntV(x, to)], 1: [StructV("TryFromIntError", [])]})
+
+
+@model(r"^<(BInt<\d+>|BUint<\d+>) as TryFrom<[iu](8|16|32|64|128|size)>>::try_from$",
+       "bnum: Ok(v) iff the primitive value fits the big integer type")
+def m_bnum_try_from_prim(interp, path, args, ret_ty, callee):
+    to = re.match(r"^<(\w+<\d+>) as", canon(callee)).group(1)
     x = args[0].term
     ok = in_range(x, to)
     return EnumV(ret_ty, z3.If(ok, 0, 1), {0: [IntV(x, to)], 1: [StructV("TryFromIntError", [])]})
